@@ -30,7 +30,7 @@ const char *target_name = "mt";
 enum { L_SWITCH_IN_POST, L_SWITCH_OWNER_DETACH, L_CROSS_POST, L_SELF_POST, L_POST_FROM_HANDLER, L_UNREG_PENDING, L_TWO_OWNERS, L_POOL,
        L_SUBMIT_ALL_BUSY, L_SUBMIT_IDLE_EXPIRED, L_SUBMIT_BEFORE_FIRST_RUN, L_CONTINUATION, L_PUT_WHILE_BUSY, L_PUT_WHILE_STARTING, L_PUT_WHILE_IDLE,
        L_IDLE_TIMEOUT_DEATH, L_IVTHREAD, L_IVTHREAD_NODEINIT, L_IVTHREAD_PEXIT, L_M0, L_M1, L_M2, L_M3, L_RAW_KICK, L_EVENTFD_FALLBACK,
-       L_FD_UNREG_IN_EVENT, L_POOL_REUSE, L_SUBMIT_FROM_COMPLETION, L_TIME_PASSED_10S, L_BURST, L_RAW_CROSS_POST, L_RAW_BIG_BURST, L_LOCAL_WORK, L_PUT_FROM_COMPLETION, L_IVTHREAD_CREATE_FAILS, L_POOL_CREATE_FAILS, L_EVENT_REG_EMFILE };
+       L_FD_UNREG_IN_EVENT, L_POOL_REUSE, L_SUBMIT_FROM_COMPLETION, L_TIME_PASSED_10S, L_BURST, L_RAW_CROSS_POST, L_RAW_BIG_BURST, L_LOCAL_WORK, L_PUT_FROM_COMPLETION, L_IVTHREAD_CREATE_FAILS, L_POOL_CREATE_FAILS, L_EVENT_REG_EMFILE, L_ITEM_STRUCT_REUSED, L_BUSY_OWNER, L_OWNER_STALLS };
 
 #define FAILP(prop, tag, ...) vz_fail(prop, tag, __VA_ARGS__)
 static void fail_any(const char *tag, const char *fmt, ...)
@@ -60,6 +60,8 @@ static unsigned long lclock;    /* logical clock ordering post starts and handle
 
 struct mev {
 	struct iv_event *iv; int owner, idx; int registered;
+	int idle_rounds;       /* ... the same, counted in rounds of the owner's loop (runs of its busy task) */
+	int idle_polls;        /* kernel polls the owner made with this event's post completed, undelivered, and nobody else able to run */
 	unsigned long last_completed_post_start, last_handler_entry;
 	long nposts_started, nhandled;
 	int inflight;          /* posts currently inside iv_event_post */
@@ -80,6 +82,7 @@ struct owner {
 	int stops_seen, in_main, nested;
 	int inflight;                   /* iv_event_post calls targeting this owner that have not returned yet */
 	long budget;
+	struct iv_task busy; int busy_left, busy_inited;   /* a task that keeps itself registered for a while: the loop polls with a zero timeout */
 };
 static struct owner own[MAXOWN];
 static int nown, nposters, posters_done;
@@ -87,7 +90,7 @@ static int cfg_method;
 static int eventfd_mode;   /* 0 eventfd2, 1 old eventfd, 2 pipe */
 static __thread int emfile_armed;   /* eventfd2() of this thread fails with EMFILE */
 
-struct item { struct iv_work_item w; int id, submitted, work_runs, comp_runs, work_thread, work_returned, is_cont, local; };
+struct item { struct iv_work_item w; struct iv_work_item *wp; int id, submitted, work_runs, comp_runs, work_thread, work_returned, is_cont, local; };
 static struct item items[MAXITEM]; static int nitems;
 static struct iv_work_pool *pool; static int pool_alive, pool_put_called, pool_max, pool_generation;
 static int running_now, max_running_seen;
@@ -154,7 +157,7 @@ static void ev_handler(void *cookie)
 	if (!o->in_main) FAILP("C07", "callback-outside-main", "event handler outside iv_main");
 	e->nhandled++;
 	if (e->nhandled > e->nposts_started) FAILP("C08", "over-delivered", "owner%d.ev%d handled %ld times, only %ld posts were made", e->owner, e->idx, e->nhandled, e->nposts_started);
-	e->last_handler_entry = now;
+	e->last_handler_entry = now; e->idle_polls = 0; e->idle_rounds = 0;
 	if (e->idx == 0) {
 		/* stop event: a poster has finished */
 		o->stops_seen++;
@@ -309,6 +312,7 @@ static void pool_put(void)
 	/* the caller may reuse the structure immediately */
 	memset(pool, 0x5A, sizeof *pool); free(pool); pool = NULL;
 }
+static struct iv_work_item *reuse_struct;
 static void submit_item(int cont_of, int local)
 {
 	if (nitems >= MAXITEM || items_budget <= 0) return;
@@ -316,8 +320,11 @@ static void submit_item(int cont_of, int local)
 	struct item *it = &items[nitems];
 	memset(it, 0, sizeof *it);
 	it->id = nitems++; items_budget--;
-	IV_WORK_ITEM_INIT(&it->w);
-	it->w.cookie = it; it->w.work = work_fn; it->w.completion = comp_fn;
+	if (reuse_struct) {
+		/* the struct of an item whose completion is running right now is submitted again, as it is */
+		it->wp = reuse_struct; reuse_struct = NULL; vz_label(L_ITEM_STRUCT_REUSED);
+	} else { it->wp = &it->w; IV_WORK_ITEM_INIT(it->wp); }
+	it->wp->cookie = it; it->wp->work = work_fn; it->wp->completion = comp_fn;
 	it->submitted = 1; it->is_cont = cont_of >= 0; it->local = local;
 	int all_busy = running_now >= pool_max;
 	if (!local && all_busy) vz_label(L_SUBMIT_ALL_BUSY);
@@ -325,14 +332,14 @@ static void submit_item(int cont_of, int local)
 		for (int i = 0; i < nworkers; i++) if (start_count[worker_slots[i]] && !stop_count[worker_slots[i]]) vz_label(L_SUBMIT_IDLE_EXPIRED);
 	vz_log("[T%d] submit item %d%s%s", sched_self(), it->id, it->is_cont ? " (continuation)" : "", local ? " (NULL pool)" : "");
 	vz_hash_u(0x400 + it->is_cont * 2 + local);
-	if (local) { vz_label(L_LOCAL_WORK); iv_work_pool_submit_work(NULL, &it->w); }
-	else if (it->is_cont) { vz_label(L_CONTINUATION); iv_work_pool_submit_continuation(pool, &it->w); }
+	if (local) { vz_label(L_LOCAL_WORK); iv_work_pool_submit_work(NULL, it->wp); }
+	else if (it->is_cont) { vz_label(L_CONTINUATION); iv_work_pool_submit_continuation(pool, it->wp); }
 	else {
 		/* out of threads at the moment the pool wants a worker: the item stays queued, and the next submission tries again
 		 * (made right here, so that "every submitted item completes" remains what the pool promises) */
 		int inject = sched_self() == own[0].slot && nitems < MAXITEM && items_budget > 0 && ch_n(8) == 0;
 		if (inject) sched_fail_next_create = 1;
-		iv_work_pool_submit_work(pool, &it->w);
+		iv_work_pool_submit_work(pool, it->wp);
 		if (inject) {
 			if (sched_fail_next_create) sched_fail_next_create = 0;       /* no worker was wanted */
 			else { vz_label(L_POOL_CREATE_FAILS); vz_log("[T%d] (worker creation failed: EAGAIN)", sched_self()); submit_item(-1, 0); }
@@ -369,7 +376,7 @@ static void comp_fn(void *cookie)
 	if (it->work_runs != 1 || !it->work_returned) FAILP("C12", "completion-before-work", "completion of item %d ran before its work function returned", it->id);
 	if (pool_alive && !pool_put_called) {
 		unsigned c = ch_n(8);
-		if (c <= 2) { vz_label(L_SUBMIT_FROM_COMPLETION); submit_item(-1, 0); }
+		if (c <= 2) { vz_label(L_SUBMIT_FROM_COMPLETION); if (ch_n(3) == 0) reuse_struct = it->wp; submit_item(-1, 0); reuse_struct = NULL; }
 		else if (c == 3) { vz_label(L_PUT_FROM_COMPLETION); pool_put(); }
 	}
 }
@@ -418,6 +425,8 @@ static void owner_shutdown(struct owner *o)
 	for (int k = 0; k < 2; k++) if (o->fds[k].registered) fd_unregister(o, k);
 	for (int k = 0; k < 3; k++) if (o->act_busy[k]) { iv_timer_unregister(&o->act_timer[k]); o->act_busy[k] = 0; }
 	if (iv_timer_registered(&o->shutdown_timer)) iv_timer_unregister(&o->shutdown_timer);
+	if (o->busy_inited && iv_task_registered(&o->busy)) iv_task_unregister(&o->busy);
+	o->busy_left = 0;
 	if (o == &own[0] && pool_alive && !pool_put_called) pool_put();
 }
 static void shutdown_timer_cb(void *cookie) { owner_shutdown(cookie); }
@@ -443,6 +452,23 @@ static void arm_act_timer(struct owner *o)
 		return;
 	}
 }
+static void busy_task_cb(void *c)
+{
+	struct owner *o = c;
+	if (o->shutdown_done) { o->busy_left = 0; return; }
+	/* one run per round of the loop: a post that was complete, with nobody else able to run, four rounds ago has had three full
+	 * polls and dispatches to be delivered in */
+	int quiet = o->inflight == 0 && sched_all_others_parked();
+	for (int i = 0; i < MAXEV; i++) {
+		struct mev *e = &o->ev[i];
+		if (!quiet || !e->registered || e->last_completed_post_start <= e->last_handler_entry) { e->idle_rounds = 0; continue; }
+		if (++e->idle_rounds >= 4) {
+			FAILP("C08", "undelivered-post-busy-loop", "owner%d went round its loop %d times with event %d posted (t=%lu, last handler t=%lu) and every other thread parked, and has not run the handler", (int)(o - own), e->idle_rounds, i, e->last_completed_post_start, e->last_handler_entry);
+			fail_any("undelivered-event-post", "owner%d keeps going round its loop with an undelivered iv_event post", (int)(o - own));
+		}
+	}
+	if (--o->busy_left > 0) iv_task_register(&o->busy);
+}
 static void owner_actions(struct owner *o, int nmax)
 {
 	int oi = (int)(o - own);
@@ -453,7 +479,7 @@ static void owner_actions(struct owner *o, int nmax)
 	int n = ch_n(nmax + 1);
 	for (int k = 0; k < n && !o->shutdown_done; k++) {
 		o->budget--;
-		switch (ch_n(12)) {
+		switch (ch_n(14)) {
 		case 0: { int i = 3 + ch_n(2); if (o->ev[i].registered) { vz_label(L_POST_FROM_HANDLER); ev_post(&o->ev[i]); } } break;
 		case 1: if (nown > 1) { struct owner *p = &own[1 - oi]; int i = 1 + ch_n(2); if (p->ev[i].registered && !p->shutdown_done) ev_post(&p->ev[i]); } break;
 		case 2: { int i = 3 + ch_n(2); if (o->ev[i].registered) ev_unregister(o, i); } break;
@@ -478,6 +504,19 @@ static void owner_actions(struct owner *o, int nmax)
 			} } break;
 		case 10: { int i = ch_n(MAXRAW); if (o->raw[i].registered) raw_post(&o->raw[i], 1 + ch_n(3)); } break;
 		case 11: if (oi == 0 && ch_n(3) == 0) submit_item(-1, 1); break;
+		case 12: if (!o->busy_left && ch_n(2)) {     /* the owner is busy for a number of rounds: a task that re-registers itself */
+				if (!o->busy_inited) { IV_TASK_INIT(&o->busy); o->busy.cookie = o; o->busy.handler = busy_task_cb; o->busy_inited = 1; }
+				o->busy_left = 3 + ch_n(30); vz_label(L_BUSY_OWNER); vz_hash_u(0x900 + o->busy_left);
+				if (!iv_task_registered(&o->busy)) iv_task_register(&o->busy);
+			} break;
+		case 13: if (oi == 0 && pool_alive && ch_n(3) == 0) {
+				/* the owner does not get back to its loop for a long time (virtual): workers finish, report, idle out and leave meanwhile */
+				int64_t dt = (int64_t[]){ 1000000, 9999000000ll, 10001000000ll, 20000000000ll }[ch_n(4)];
+				vz_label(L_OWNER_STALLS); vz_hash_u(0xa00 + dt % 1000);
+				vz_log("[T%d] owner0 stalls for %lld ms inside a handler", sched_self(), (long long)(dt / 1000000));
+				for (int r = 0; r < 6; r++) { vk_advance(dt / 6); for (int y = 0; y < 8 && sched_other_runnable(); y++) sched_yield_to_others("stall"); }
+				iv_invalidate_now();
+			} break;
 		}
 	}
 }
@@ -504,6 +543,11 @@ static void owner_setup(struct owner *o)
 	if (ch_n(2)) ev_register(o, 3);
 	if (ch_n(2)) raw_register(o, 0);
 	if (oi == 0 && ch_n(2)) { fd_register(o, 0); fd_register(o, 1); }
+	if (ch_n(3) == 0) {      /* busy from the start: the posts of the other threads arrive while this loop never sleeps */
+		IV_TASK_INIT(&o->busy); o->busy.cookie = o; o->busy.handler = busy_task_cb; o->busy_inited = 1;
+		o->busy_left = 5 + ch_n(60); vz_label(L_BUSY_OWNER); vz_hash_u(0x900 + o->busy_left);
+		iv_task_register(&o->busy);
+	}
 	IV_TIMER_INIT(&o->shutdown_timer);
 	iv_validate_now();
 	o->shutdown_timer.expires = iv_now; o->shutdown_timer.expires.tv_sec += 60;
@@ -564,6 +608,23 @@ static struct owner *owner_of_self(void)
 	int s = sched_self();
 	for (int i = 0; i < nown; i++) if (own[i].slot == s && own[i].in_main) return &own[i];
 	return NULL;
+}
+/* every kernel poll of an owner, blocking or not: a completed post whose kick nobody else can still be about to send must be
+ * picked up by the very next poll; three polls in a row without its handler is a lost wake-up even though the loop never sleeps */
+static void hook_wait_entry(struct vk_wait *w)
+{
+	(void)w;
+	struct owner *o = owner_of_self();
+	if (!o) return;
+	int quiet = o->inflight == 0 && sched_all_others_parked();
+	for (int i = 0; i < MAXEV; i++) {
+		struct mev *e = &o->ev[i];
+		if (!quiet || !e->registered || e->last_completed_post_start <= e->last_handler_entry) { e->idle_polls = 0; continue; }
+		if (++e->idle_polls >= 4) {
+			FAILP("C08", "undelivered-post-busy-loop", "owner%d polled the kernel %d times with event %d posted (t=%lu, last handler t=%lu) and every other thread parked, and has not run the handler", (int)(o - own), e->idle_polls, i, e->last_completed_post_start, e->last_handler_entry);
+			fail_any("undelivered-event-post", "owner%d keeps polling with an undelivered iv_event post", (int)(o - own));
+		}
+	}
 }
 static int hook_wait_block(struct vk_wait *w)
 {
@@ -659,7 +720,7 @@ void target_run(void)
 
 	signal(SIGPIPE, SIG_IGN);
 	vk_reset();
-	vk_hooks.wait_block = hook_wait_block; vk_hooks.epoll_ctl_pre = hook_epoll_ctl_pre; vk_hooks.sysfault = hook_sysfault;
+	vk_hooks.wait_block = hook_wait_block; vk_hooks.wait_entry = hook_wait_entry; vk_hooks.epoll_ctl_pre = hook_epoll_ctl_pre; vk_hooks.sysfault = hook_sysfault;
 	vk_hooks.io_pre = sched_io_pre; vk_hooks.io_post = sched_io_post;
 	vk_active = 1;
 	sched_on_deadlock = on_deadlock; sched_on_switch = on_switch; sched_on_idle = on_idle;
